@@ -245,6 +245,25 @@ def scanPost (s : Str) : Option Nat × Str :=
     | some ((_, n), r) => (some n, r)
     | none => (none, s)
 
+/-- `_parse_letter_version(letter, number)` on the texts the regex groups captured (`none` = group absent):
+the spelled letter is lower-cased and normalised, an absent number is 0; no letter but a (non-empty) number is the
+implicit post release `-N`.  `scanLetterGroup` / `scanPost` compute this on the fly: see
+`Src.scanLetterGroup_eq_parse`, `Src.scanPost_eq_parse` (`PkgProofs/Props/Src/Version.lean`). -/
+def normLetter (l : Str) : Str :=
+  if l == ofString "alpha" then ofString "a"
+  else if l == ofString "beta" then ofString "b"
+  else if l == ofString "c" || l == ofString "pre" || l == ofString "preview" then ofString "rc"
+  else if l == ofString "rev" || l == ofString "r" then ofString "post"
+  else l
+
+def parseLetterVersion (letter number : Option Str) : Option (Str × Nat) :=
+  match letter with
+  | some (c :: cs) => some (normLetter (lowerStr (c :: cs)), match number with | some d => undec d | none => 0)
+  | _ =>
+    match number with
+    | some (d :: ds) => some (ofString "post", undec (d :: ds))
+    | _ => none
+
 /-- release: `[0-9]+(?:\.[0-9]+)*`, given the first number already scanned -/
 def scanReleaseTail : Nat → Str → List Nat × Str
   | 0, s => ([], s)
